@@ -11,7 +11,7 @@ RULE = ('PARSE in both modes on the same inputs: every string of <= k atoms over
         'succeeds the two dumps are identical; if strict fails, the nodes it had completed (recovery_nodes of the error) are a prefix of '
         'the tolerant result (the last chars node may be extended); sig = strict outcome class x tolerant node kinds')
 TRUSTED = ['tokenizer model (C11)', 'closed world of argument parsers']
-ASSUMPTIONS = ['construct nesting below the interpreter recursion limit (about 140 levels); wall-clock watchdog of 10 s per case stands for "terminates"']
+ASSUMPTIONS = ['construct nesting below the interpreter recursion limit (about 140 levels); CPU-time watchdog of 10 s per case (wall-clock backstop 300 s) stands for "terminates"']
 TRIVIAL_SIGS = ()
 CASE_TIMEOUT = 10.0
 
